@@ -1,13 +1,18 @@
 import SerfModel.Prelude.Basic
 /-!
 Control skeleton of the network-facing handlers (serf/delegate.go NotifyMsg, MergeRemoteState;
-serf/serf.go handleUserEvent, handleQuery; serf/query.go shouldProcessQuery; serf/internal_query.go
-stream/handleQuery and the key handlers) over raw bytes and an ABSTRACT decoder.
+serf/serf.go handleUserEvent, handleQuery, handleQueryResponse; serf/query.go shouldProcessQuery,
+QueryResponse.sendAck/sendResponse; serf/internal_query.go stream/handleQuery and the key handlers)
+over raw bytes and an ABSTRACT decoder.
 
-Every place where the real code indexes, slices or takes a modulo is a *checked* operation here
-with an explicit `.panic site` outcome (the site names are those of `SerfModel.Gen.PanicSites`),
-guarded exactly as the source guards it.  The decoder is a parameter: any total function (go-msgpack
-turns its internal panics into errors; that is the assumed law).  Bytes are `Nat`s.
+Every place where the real code indexes, slices, takes a modulo, writes to a map that may be nil or
+sends on a channel that may be closed is a *checked* operation here with an explicit `.panic site`
+outcome, guarded exactly as the source guards it.  The site names are those of
+`SerfModel.Gen.PanicSites` (regenerated from the source); `coveredSites` lists the ones this
+skeleton embodies and `SerfProofs.C09.C09_skeleton_covers_generated_sites` checks that list against
+the generated inventory of the modelled functions.  The decoder is a parameter: any total function
+to `Option` (go-msgpack turns its internal panics into errors; that is the assumed law).  Bytes are
+`Nat`s; Lamport times are `Nat`s below 2^64 with the wrap-around of `uint64` made explicit.
 -/
 namespace SerfModel.Handlers
 
@@ -22,10 +27,17 @@ inductive Res (α : Type) where
   | val : α → Res α
   | panic : String → Res α
 
+def twoPow64 : Nat := 18446744073709551616
+
+/-- serf/lamport.go Witness on `uint64`: `if v < cur { return }; cur = v + 1` (the addition wraps). -/
+def witness (cur v : Nat) : Nat := if v < cur then cur else (v + 1) % twoPow64
+
 structure Cfg where
   eventBuffer : Nat
   queryBuffer : Nat
   encryption : Bool := true
+  /-- dimensionality of the node's own network coordinate -/
+  dimensionality : Nat := 8
 
 structure Query where
   ltime : Nat
@@ -35,6 +47,11 @@ structure Query where
   filters : List (List Nat)
   ack : Bool
   noBroadcast : Bool
+
+structure Response where
+  ltime : Nat
+  id : Nat
+  ack : Bool
 
 structure PushPull where
   leftMembers : List (List Nat)
@@ -47,7 +64,8 @@ structure Dec where
   join : List Nat → Option Nat
   userEvent : List Nat → Option Nat
   query : List Nat → Option Query
-  queryResponse : List Nat → Option Nat
+  queryResponse : List Nat → Option Response
+  /-- relay header; the result is `raw`, the bytes behind the header (forwarded untouched) -/
   relayHeader : List Nat → Option (List Nat)
   pushPull : List Nat → Option PushPull
   /-- node filter: decoded, and whether our name is listed -/
@@ -55,11 +73,31 @@ structure Dec where
   /-- tag filter: decoded, and whether the regexp compiles and matches -/
   filterTag : List Nat → Option Bool
   keyRequest : List Nat → Option (List Nat)
+  /-- probe-ack payload: the decoded coordinate's number of dimensions -/
+  coordinate : List Nat → Option Nat := fun _ => none
+  /-- name-conflict reply (a Member) and key reply (a nodeKeyResponse) -/
+  member : List Nat → Option Unit := fun _ => none
+  keyResponse : List Nat → Option Unit := fun _ => none
+  /-- tags blob behind the magic byte -/
+  tags : List Nat → Option Unit := fun _ => none
 
 def rejectAll : Dec :=
   { leave := fun _ => none, join := fun _ => none, userEvent := fun _ => none, query := fun _ => none,
     queryResponse := fun _ => none, relayHeader := fun _ => none, pushPull := fun _ => none,
     filterNode := fun _ => none, filterTag := fun _ => none, keyRequest := fun _ => none }
+
+/-- a query this node has issued and still tracks (serf/query.go QueryResponse) -/
+structure OpenQuery where
+  ltime : Nat
+  id : Nat
+  /-- `ackCh != nil` / `acks != nil` (both made by newQueryResponse iff the query requested acks) -/
+  ackCh : Bool
+  acksMap : Bool
+  /-- `responses != nil` -/
+  responsesMap : Bool := true
+  /-- the `closed` flag, and whether the channels have actually been closed -/
+  closed : Bool := false
+  chClosed : Bool := false
 
 structure State where
   /-- one slot per buffer entry: the Lamport time stored there (`none` = nil pointer) -/
@@ -69,21 +107,34 @@ structure State where
   queryMin : Nat := 0
   eventClock : Nat := 0
   queryClock : Nat := 0
+  openQueries : List OpenQuery := []
+
+/-- scheduling facts the handler cannot control: is there room in the reply channel, has the query's deadline passed -/
+structure Sched where
+  space : Bool := true
+  deadlinePassed : Bool := false
 
 def defaultCfg : Cfg := { eventBuffer := 4, queryBuffer := 4 }
 def initState : State := { eventBuf := List.replicate 4 none, queryBuf := List.replicate 4 none }
 
-/-- configuration precondition + buffer shape: Create makes the buffers with the configured sizes,
-which must be positive (`LTime % len(buffer)` divides by the size). -/
+/-- invariants of an open query: established by newQueryResponse / Close (checked against the source by the
+extractor: `[inv]` hypotheses of the sendAck/sendResponse sites) -/
+def OpenQuery.WF (q : OpenQuery) : Prop :=
+  (q.ackCh = true → q.acksMap = true) ∧ q.responsesMap = true ∧ (q.chClosed = true → q.closed = true)
+
+/-- configuration precondition + shape of the state: Create makes the buffers with the configured sizes,
+which must be positive (`LTime % len(buffer)`); open queries satisfy their invariants. -/
 def WF (cfg : Cfg) (st : State) : Prop :=
-  0 < cfg.eventBuffer ∧ 0 < cfg.queryBuffer ∧ st.eventBuf.length = cfg.eventBuffer ∧ st.queryBuf.length = cfg.queryBuffer
+  0 < cfg.eventBuffer ∧ 0 < cfg.queryBuffer ∧ st.eventBuf.length = cfg.eventBuffer ∧ st.queryBuf.length = cfg.queryBuffer ∧
+  ∀ q ∈ st.openQueries, q.WF
 
 /-- `x[1:]`, checked -/
 def slice1 (site : String) (x : List Nat) : Res (List Nat) :=
   if 1 ≤ x.length then .val (x.drop 1) else .panic site
 
-/-- the de-duplication buffers: `idx := ltime % len(buf); seen := buf[idx]` (handleUserEvent / handleQuery) -/
-def bufferStep (siteDiv siteIdx : String) (buf : List (Option Nat)) (minT clock ltime : Nat) : Res (List (Option Nat) × Bool) :=
+/-- the de-duplication buffers: `idx := ltime % len(buf); seen := buf[idx]; …; buf[idx] = seen`
+(handleUserEvent / handleQuery; `clock` is the clock after witnessing the message) -/
+def bufferStep (siteDiv siteIdx siteIdx2 : String) (buf : List (Option Nat)) (minT clock ltime : Nat) : Res (List (Option Nat) × Bool) :=
   if ltime < minT then .val (buf, false)
   else if clock > buf.length ∧ ltime < clock - buf.length then .val (buf, false)
   else if buf.length = 0 then .panic siteDiv
@@ -91,7 +142,9 @@ def bufferStep (siteDiv siteIdx : String) (buf : List (Option Nat)) (minT clock 
     let idx := ltime % buf.length
     match buf[idx]? with
     | none => .panic siteIdx
-    | some _ => .val (buf.set idx (some ltime), true)
+    | some (some t) => if t = ltime then .val (buf, true)   -- same time: entry kept
+                       else if idx < buf.length then .val (buf.set idx (some ltime), true) else .panic siteIdx2
+    | some none => if idx < buf.length then .val (buf.set idx (some ltime), true) else .panic siteIdx2
 
 /-- serf/query.go shouldProcessQuery -/
 def shouldProcess (d : Dec) : List (List Nat) → Res Bool
@@ -113,7 +166,11 @@ def shouldProcess (d : Dec) : List (List Nat) → Res Bool
           | .val body => match d.filterTag body with
             | some true => shouldProcess d rest
             | _ => .val false
-        else .val false
+        else
+          -- default: the warning prints filter[0] once more
+          match filter[0]? with
+          | none => .panic "site_Serf_shouldProcessQuery_index_filter_0_2"
+          | some _ => .val false
 
 def internalPrefix : List Nat := "_serf_".toList.map (·.toNat)
 
@@ -141,12 +198,13 @@ def internalQuery (d : Dec) (q : Query) : Outcome :=
 
 /-- serf/serf.go handleQuery followed by the internal-query stage -/
 def handleQuery (d : Dec) (st : State) (q : Query) : State × Outcome :=
+  let clock := witness st.queryClock q.ltime
   match bufferStep "site_Serf_handleQuery_div_LamportTime_len_s_queryBuffer" "site_Serf_handleQuery_index_s_queryBuffer_idx"
-      st.queryBuf st.queryMin (max st.queryClock (q.ltime + 1)) q.ltime with
+      "site_Serf_handleQuery_index_s_queryBuffer_idx_2" st.queryBuf st.queryMin clock q.ltime with
   | .panic s => (st, .panic s)
-  | .val (_, false) => ({ st with queryClock := max st.queryClock (q.ltime + 1) }, .ok false)
+  | .val (_, false) => ({ st with queryClock := clock }, .ok false)
   | .val (buf, true) =>
-    let st' := { st with queryBuf := buf, queryClock := max st.queryClock (q.ltime + 1) }
+    let st' := { st with queryBuf := buf, queryClock := clock }
     match shouldProcess d q.filters with
     | .panic s => (st', .panic s)
     | .val false => (st', .ok (!q.noBroadcast))
@@ -157,33 +215,70 @@ def handleQuery (d : Dec) (st : State) (q : Query) : State × Outcome :=
 
 /-- serf/serf.go handleUserEvent -/
 def handleUserEvent (st : State) (ltime : Nat) : State × Outcome :=
+  let clock := witness st.eventClock ltime
   match bufferStep "site_Serf_handleUserEvent_div_LamportTime_len_s_eventBuffer" "site_Serf_handleUserEvent_index_s_eventBuffer_idx"
-      st.eventBuf st.eventMin (max st.eventClock (ltime + 1)) ltime with
+      "site_Serf_handleUserEvent_index_s_eventBuffer_idx_2" st.eventBuf st.eventMin clock ltime with
   | .panic s => (st, .panic s)
-  | .val (buf, b) => ({ st with eventBuf := buf, eventClock := max st.eventClock (ltime + 1) }, .ok b)
+  | .val (buf, b) => ({ st with eventBuf := buf, eventClock := clock }, .ok b)
+
+/-- serf/query.go sendAck: under closeLock; `if r.closed return`; `select { case r.ackCh <- from: r.acks[from] = …; default: error }`.
+A send on a nil channel is never selected; a send on a closed channel is selected and panics. -/
+def sendAck (q : OpenQuery) (sc : Sched) : Outcome :=
+  if q.closed then .ignored "query closed"
+  else if q.ackCh && (sc.space || q.chClosed) then
+    if q.chClosed then .panic "site_QueryResponse_sendAck_send_r_ackCh"
+    else if q.acksMap then .ok false else .panic "site_QueryResponse_sendAck_mapwrite_r_acks"
+  else .ignored "dropped"
+
+/-- serf/query.go sendResponse -/
+def sendResponse (q : OpenQuery) (sc : Sched) : Outcome :=
+  if q.closed then .ignored "query closed"
+  else if sc.space || q.chClosed then
+    if q.chClosed then .panic "site_QueryResponse_sendResponse_send_r_respCh"
+    else if q.responsesMap then .ok false else .panic "site_QueryResponse_sendResponse_mapwrite_r_responses"
+  else .ignored "dropped"
+
+/-- serf/serf.go handleQueryResponse -/
+def handleQueryResponse (st : State) (r : Response) (sc : Sched) : Outcome :=
+  match st.openQueries.find? (fun q => q.ltime == r.ltime) with
+  | none => .ignored "reply for non-running query"
+  | some q =>
+    if q.id ≠ r.id then .ignored "id mismatch"
+    else if q.closed || sc.deadlinePassed then .ignored "finished"
+    else if r.ack then sendAck q sc else sendResponse q sc
 
 /-- serf/delegate.go NotifyMsg -/
-def notifyMsg (d : Dec) (st : State) (buf : List Nat) : State × Outcome :=
+def notifyMsg (d : Dec) (st : State) (buf : List Nat) (sc : Sched) : State × Outcome :=
   if buf.length = 0 then (st, .ignored "empty")
   else match buf[0]? with
     | none => (st, .panic "site_delegate_NotifyMsg_index_buf_0")
     | some t =>
-      match slice1 "site_delegate_NotifyMsg_slice_buf_1" buf with
-      | .panic s => (st, .panic s)
-      | .val body =>
-        if t = 0 then match d.leave body with
+      if t = 0 then match slice1 "site_delegate_NotifyMsg_slice_buf_1" buf with
+        | .panic s => (st, .panic s)
+        | .val body => match d.leave body with
           | none => (st, .ignored "leave does not decode") | some _ => (st, .ok true)
-        else if t = 1 then match d.join body with
+      else if t = 1 then match slice1 "site_delegate_NotifyMsg_slice_buf_1_2" buf with
+        | .panic s => (st, .panic s)
+        | .val body => match d.join body with
           | none => (st, .ignored "join does not decode") | some _ => (st, .ok true)
-        else if t = 3 then match d.userEvent body with
+      else if t = 3 then match slice1 "site_delegate_NotifyMsg_slice_buf_1_3" buf with
+        | .panic s => (st, .panic s)
+        | .val body => match d.userEvent body with
           | none => (st, .ignored "user event does not decode") | some lt => handleUserEvent st lt
-        else if t = 4 then match d.query body with
+      else if t = 4 then match slice1 "site_delegate_NotifyMsg_slice_buf_1_4" buf with
+        | .panic s => (st, .panic s)
+        | .val body => match d.query body with
           | none => (st, .ignored "query does not decode") | some q => handleQuery d st q
-        else if t = 5 then match d.queryResponse body with
-          | none => (st, .ignored "response does not decode") | some _ => (st, .ok false)
-        else if t = 9 then match d.relayHeader body with
-          | none => (st, .ignored "relay header does not decode") | some _ => (st, .ok false)  -- forwarded, not processed here
-        else (st, .ignored "unknown type")
+      else if t = 5 then match slice1 "site_delegate_NotifyMsg_slice_buf_1_5" buf with
+        | .panic s => (st, .panic s)
+        | .val body => match d.queryResponse body with
+          | none => (st, .ignored "response does not decode") | some r => (st, handleQueryResponse st r sc)
+      else if t = 9 then match slice1 "site_delegate_NotifyMsg_slice_buf_1_6" buf with
+        | .panic s => (st, .panic s)
+        | .val body => match d.relayHeader body with
+          | none => (st, .ignored "relay header does not decode")
+          | some _raw => (st, .ok false)  -- raw is forwarded as it is: never inspected, may be empty
+      else (st, .ignored "unknown type")
 
 /-- the event loop of MergeRemoteState: nil slots are skipped (`if events == nil { continue }`) -/
 def mergeEvents (st : State) : List (Option (Nat × Nat)) → State × Outcome
@@ -200,20 +295,84 @@ def mergeRemoteState (d : Dec) (st : State) (buf : List Nat) : State × Outcome 
   else match buf[0]? with
     | none => (st, .panic "site_delegate_MergeRemoteState_index_buf_0")
     | some t =>
-      if t ≠ 2 then (st, .ignored "bad type prefix")
+      if t ≠ 2 then
+        -- the error message prints buf[0] once more
+        match buf[0]? with
+        | none => (st, .panic "site_delegate_MergeRemoteState_index_buf_0_2")
+        | some _ => (st, .ignored "bad type prefix")
       else match slice1 "site_delegate_MergeRemoteState_slice_buf_1" buf with
         | .panic s => (st, .panic s)
         | .val body => match d.pushPull body with
           | none => (st, .ignored "push/pull does not decode")
           | some pp => mergeEvents st pp.events
 
-inductive Input where
-  | msg (buf : List Nat)
-  | merge (buf : List Nat)
+/-- serf/ping_delegate.go NotifyPingComplete: version byte, coordinate behind it; Client.Update rejects a
+coordinate of another dimensionality before any distance is computed. -/
+def pingComplete (cfg : Cfg) (d : Dec) (payload : List Nat) : Outcome :=
+  if payload.length = 0 then .ignored "empty"
+  else match payload[0]? with
+    | none => .panic "site_pingDelegate_NotifyPingComplete_index_payload_0"
+    | some v =>
+      if v ≠ 1 then .ignored "unsupported ping version"
+      else match slice1 "site_pingDelegate_NotifyPingComplete_slice_payload_1" payload with
+        | .panic s => .panic s
+        | .val body => match d.coordinate body with
+          | none => .ignored "coordinate does not decode"
+          | some n => if n ≠ cfg.dimensionality then .ignored "rejected: dimensions are not compatible" else .ok false
 
-def handle (_cfg : Cfg) (d : Dec) (st : State) : Input → State × Outcome
-  | .msg b => notifyMsg d st b
+/-- serf/serf.go decodeTags (member metadata): `if len(buf) == 0 || buf[0] != tagMagicByte { role } else decode buf[1:]` -/
+def decodeTags (d : Dec) (buf : List Nat) : Outcome :=
+  if buf.length = 0 then .ok false
+  else match buf[0]? with
+    | none => .panic "site_Serf_decodeTags_index_buf_0"
+    | some b =>
+      if b ≠ 255 then .ok false
+      else match slice1 "site_Serf_decodeTags_slice_buf_1" buf with
+        | .panic s => .panic s
+        | .val body => match d.tags body with
+          | none => .ignored "tags do not decode (logged; whatever was decoded is kept)"
+          | some _ => .ok false
+
+/-- a reply read by resolveNodeConflict (typ = 6, site prefix Serf_resolveNodeConflict) or by
+KeyManager.streamKeyResp (typ = 8): `if len(p) < 1 || p[0] != typ { invalid } else decode p[1:]` -/
+def typedReply (siteIdx siteSlice : String) (typ : Nat) (dec : List Nat → Option Unit) (p : List Nat) : Outcome :=
+  if p.length < 1 then .ignored "invalid reply type"
+  else match p[0]? with
+    | none => .panic siteIdx
+    | some t =>
+      if t ≠ typ then .ignored "invalid reply type"
+      else match slice1 siteSlice p with
+        | .panic s => .panic s
+        | .val body => match dec body with
+          | none => .ignored "reply does not decode"
+          | some _ => .ok false
+
+def conflictReply (d : Dec) (p : List Nat) : Outcome :=
+  typedReply "site_Serf_resolveNodeConflict_index_r_Payload_0" "site_Serf_resolveNodeConflict_slice_r_Payload_1" 6 d.member p
+
+def keyReply (d : Dec) (p : List Nat) : Outcome :=
+  typedReply "site_KeyManager_streamKeyResp_index_r_Payload_0" "site_KeyManager_streamKeyResp_slice_r_Payload_1" 8 d.keyResponse p
+
+inductive Input where
+  /-- a gossip message handed to NotifyMsg -/
+  | msg (buf : List Nat) (sc : Sched := {})
+  /-- a state-sync payload handed to MergeRemoteState -/
+  | merge (buf : List Nat)
+  /-- a probe-ack payload handed to NotifyPingComplete -/
+  | ping (payload : List Nat)
+  /-- member metadata handed to NotifyJoin / NotifyUpdate / NotifyMerge / NotifyAlive -/
+  | metadata (buf : List Nat)
+  /-- the payload of a reply routed to the name-conflict vote / to a key command -/
+  | conflictReply (payload : List Nat)
+  | keyReply (payload : List Nat)
+
+def handle (cfg : Cfg) (d : Dec) (st : State) : Input → State × Outcome
+  | .msg b sc => notifyMsg d st b sc
   | .merge b => mergeRemoteState d st b
+  | .ping p => (st, pingComplete cfg d p)
+  | .metadata b => (st, decodeTags d b)
+  | .conflictReply p => (st, conflictReply d p)
+  | .keyReply p => (st, keyReply d p)
 
 /-- a whole history of inputs; stops at the first panic -/
 def run (cfg : Cfg) (d : Dec) : State → List Input → State × Outcome
@@ -222,5 +381,46 @@ def run (cfg : Cfg) (d : Dec) : State → List Input → State × Outcome
     match handle cfg d st i with
     | (st', .panic s) => (st', .panic s)
     | (st', _) => run cfg d st' rest
+
+/-- the functions of the source this skeleton follows (names as in `Gen.PanicSites.sitesByFunction`) -/
+def allKinds : List String := ["index", "slice", "div", "mapwrite", "send"]
+
+/-- function ↦ the kinds of its sites the skeleton represents as checked operations -/
+def modelled : List (String × List String) :=
+  [("delegate_NotifyMsg", allKinds), ("delegate_MergeRemoteState", allKinds), ("Serf_handleUserEvent", allKinds),
+   ("Serf_handleQuery", allKinds), ("Serf_shouldProcessQuery", allKinds), ("serfQueries_handleQuery", allKinds),
+   ("serfQueries_handleInstallKey", allKinds), ("serfQueries_handleUseKey", allKinds), ("serfQueries_handleRemoveKey", allKinds),
+   ("QueryResponse_sendAck", allKinds), ("QueryResponse_sendResponse", allKinds),
+   -- of these only the byte-level operations are modelled (their map writes and contract calls are site theorems only)
+   ("pingDelegate_NotifyPingComplete", ["index", "slice"]), ("Serf_decodeTags", ["index", "slice"]),
+   ("Serf_resolveNodeConflict", ["index", "slice"]), ("KeyManager_streamKeyResp", ["index", "slice"])]
+
+/-- every `.panic` site name that occurs in the skeleton -/
+def coveredSites : List String :=
+  ["site_delegate_NotifyMsg_index_buf_0", "site_delegate_NotifyMsg_slice_buf_1", "site_delegate_NotifyMsg_slice_buf_1_2",
+   "site_delegate_NotifyMsg_slice_buf_1_3", "site_delegate_NotifyMsg_slice_buf_1_4", "site_delegate_NotifyMsg_slice_buf_1_5",
+   "site_delegate_NotifyMsg_slice_buf_1_6",
+   "site_delegate_MergeRemoteState_index_buf_0", "site_delegate_MergeRemoteState_index_buf_0_2", "site_delegate_MergeRemoteState_slice_buf_1",
+   "site_Serf_handleUserEvent_div_LamportTime_len_s_eventBuffer", "site_Serf_handleUserEvent_index_s_eventBuffer_idx",
+   "site_Serf_handleUserEvent_index_s_eventBuffer_idx_2",
+   "site_Serf_handleQuery_div_LamportTime_len_s_queryBuffer", "site_Serf_handleQuery_index_s_queryBuffer_idx",
+   "site_Serf_handleQuery_index_s_queryBuffer_idx_2",
+   "site_Serf_shouldProcessQuery_index_filter_0", "site_Serf_shouldProcessQuery_slice_filter_1",
+   "site_Serf_shouldProcessQuery_slice_filter_1_2", "site_Serf_shouldProcessQuery_index_filter_0_2",
+   "site_serfQueries_handleQuery_slice_q_Name_len_InternalQueryPrefix",
+   "site_serfQueries_handleInstallKey_slice_q_Payload_1", "site_serfQueries_handleUseKey_slice_q_Payload_1",
+   "site_serfQueries_handleRemoveKey_slice_q_Payload_1",
+   "site_QueryResponse_sendAck_send_r_ackCh", "site_QueryResponse_sendAck_mapwrite_r_acks",
+   "site_QueryResponse_sendResponse_send_r_respCh", "site_QueryResponse_sendResponse_mapwrite_r_responses",
+   "site_pingDelegate_NotifyPingComplete_index_payload_0", "site_pingDelegate_NotifyPingComplete_slice_payload_1",
+   "site_Serf_decodeTags_index_buf_0", "site_Serf_decodeTags_slice_buf_1",
+   "site_Serf_resolveNodeConflict_index_r_Payload_0", "site_Serf_resolveNodeConflict_slice_r_Payload_1",
+   "site_KeyManager_streamKeyResp_index_r_Payload_0", "site_KeyManager_streamKeyResp_slice_r_Payload_1"]
+
+/-- sites of the modelled functions that are trivially safe in the source and have no checked counterpart here
+(a map made two lines earlier; sends on channels the library never closes) -/
+def triviallySafe : List String :=
+  ["site_delegate_MergeRemoteState_mapwrite_leftMap", "site_Serf_handleUserEvent_send_s_config_EventCh",
+   "site_Serf_handleQuery_send_s_config_EventCh"]
 
 end SerfModel.Handlers
